@@ -1,7 +1,7 @@
 """Which properties are claimed, at what level, and why the others are not."""
 
 HOOK_COMMITS = []
-FIX_COMMITS = ["5a7ea92", "968480f", "81560c0", "dd9d1dc", "30a1d27", "d05b8f1", "483ac36", "3ec4792", "3944e47", "ae7798f", "050b368", "8bc95ce", "d5cf2b7", "6953efe", "1247e95", "4d49515", "6f570af", "646d20b", "26bde2f", "3289b76", "74fc42f", "d04b477", "cf7895f", "0885a79", "896881d", "59d7027", "904a9ec", "08bff96", "e942a75", "26e29a9", "66fd8ff", "ebdeca6", "09441a8", "c7126b4", "27037ec", "6b98ec8"]
+FIX_COMMITS = ["5a7ea92", "968480f", "81560c0", "dd9d1dc", "30a1d27", "d05b8f1", "483ac36", "3ec4792", "3944e47", "ae7798f", "050b368", "8bc95ce", "d5cf2b7", "6953efe", "1247e95", "4d49515", "6f570af", "646d20b", "26bde2f", "3289b76", "74fc42f", "d04b477", "cf7895f", "0885a79", "896881d", "59d7027", "904a9ec", "08bff96", "e942a75", "26e29a9", "66fd8ff", "ebdeca6", "09441a8", "c7126b4", "27037ec", "6b98ec8", "5e832b4"]
 
 _PURE = "pure function of its arguments (no storage, stream, clock, retry, schedule or fault in the statement or the anchored code): deciding it means generating inputs, which is not deterministic simulation (DESIGN.md section 6)"
 
